@@ -39,6 +39,12 @@ ASSUMPTIONS = [
     'SRS.transform_bbox_to (pyproj) maps a proper rectangle to a proper rectangle (assumed where TileGrid.get_affected_bbox_and_level '
     'reprojects the request)',
     'io buffering: a write is in the process until the handle seeks, reads, flushes or closes (filemodel f_durable)',
+    'str.split(<constant separator>): first two pieces and the length facts (1 piece <=> separator absent, >= 3 <=> it occurs again) '
+    'are exact, later pieces are uninterpreted strings; hash(x) is an uninterpreted function of x and a per-process seed; '
+    'hashlib digests are uninterpreted functions of their input; super() is an opaque proxy; hasattr/iter of an unknown value '
+    'are unknown but functional',
+    'literal SQL: where a statement is a string literal the contracts inspect its column list / WHERE columns / time-base '
+    'modifiers textually; that sqlite executes the statement as written (INSERT OR REPLACE replaces the whole row, ...) is assumed',
 ]
 PROP_ASSUMPTIONS = {}
 NOT_COVERED = {}
